@@ -24,6 +24,7 @@ import time
 from urllib.parse import quote, unquote, urljoin, urlsplit, urlunsplit
 
 from bounded import gen
+from urllib.parse import urldefrag
 
 G = gen
 ROOT = 'http://h/r/s/main.css'
@@ -458,7 +459,9 @@ def _w_replacer(args):
                 res['fails'].append({'clause': CL_REPLACER, 'detail': 'Replacer(%r)(%r) raises %s: %s' % (B, u, type(e).__name__, e), 'known': None, 'inputs': {'base': B, 'url': u}})
                 continue
             g_abs = canon_abs(urljoin(DEEP, got))
-            e_abs = canon_abs(urljoin(origin, u))
+            # (RFC 3986 5.2.2: an empty reference resolves to the base WITHOUT its fragment; urllib's urljoin returns the base unchanged there -
+            #  corrected false alarm: the oracle demanded the import href's fragment on url('') )
+            e_abs = canon_abs(urljoin(origin, u) if u else urldefrag(origin)[0])
             if g_abs != e_abs:
                 ids = attribute_url(u, 'url', origin, DEEP, got, g_abs, e_abs)
                 for fid in (ids or [None]):
